@@ -169,6 +169,8 @@ def main(tier, seed):
     b = iter_func_args_bounded(rep, tier)
     try: isomorphic_contract(rep)
     except Exception: rep.error('C04 isomorphic_contract: ' + traceback.format_exc()[-1500:])
+    try: mixed_conf(rep)
+    except Exception: rep.error('C04 mixed_conf: ' + traceback.format_exc()[-1500:])
     try: scenarios(rep)
     except Exception: rep.error('C04 scenarios: ' + traceback.format_exc()[-1500:])
     files = ['beartype/_decor/_nontype/_wrap/_wrapargs.py', 'beartype/_decor/_nontype/_wrap/_wrapreturn.py', 'beartype/_decor/_nontype/_wrap/wrapmain.py',
@@ -183,6 +185,31 @@ def main(tier, seed):
                         bound='all legal signatures of <= 3 (quick) / <= 4 (thorough) parameters x annotated subsets + a seeded sample of 5-7 parameter signatures'), b]
     rep.extra['explanation'] = 'the real wrapper source captured from make_func is executed symbolically with args an arbitrary tuple and kwargs an arbitrary dict'
     return rep.finish()
+
+def _mixed_worker(sig):
+    from pyvc import wrapcheck
+    return wrapcheck.wrapper_obligations(sig, True, 'BeartypeConf(violation_return_type=UserWarning)')
+
+def mixed_conf(rep):
+    """the parameter clauses do not depend on how RETURN violations are signalled: under a configuration whose return violations are only warned
+    (violation_return_type a Warning, parameter violations still exceptions) a failing parameter check still raises about the right value and the
+    original never runs; a passing call runs it once with the arguments given"""
+    from props import gensweep
+    conf_src = 'BeartypeConf(violation_return_type=UserWarning)'
+    with mp.get_context('fork').Pool(min(10, int(os.environ.get('VERIF_PROCS', '16')))) as pool:
+        recs = pool.map(_mixed_worker, gensweep.C01_SIGS)
+    n = 0
+    for rec in recs:
+        tag = f'C04.wrap_return_warned[{rec.get("src", str(rec["sig"])).splitlines()[0][4:-1] if rec.get("src") else rec["sig"]}]'
+        if rec['error']: rep.error(f'{tag}: {rec["error"]}'); continue
+        for o in rec['obligations']:
+            if not o['name'].startswith(('post.a.', 'post.b.', 'post.c.', 'post.d.', 'defined')): continue
+            n += 1; rp = o.get('replay'); script = None
+            if rp and rp.get('reproduced'):
+                script = (f'from pyvc.wrapcheck import replay_c04\nok, d = replay_c04({rec["sig"]!r}, True, {conf_src!r}, {rp["args"]!r}, {rp["kwargs"]!r})\n'
+                          'print("REPRODUCED" if ok else "not reproduced", d)\nsys.exit(1 if ok else 0)\n')
+            rep.add(f'{tag}.{o["name"]}', o['status'], replay=rp, replay_script=script, time=o.get('time'), backend=o.get('backend'), where=o.get('where'), solver_output=o.get('solver_output'), reason=o.get('reason'), bounded=True)
+    if not n: rep.error('C04 mixed_conf: no obligation')
 
 def iter_func_args_bounded(rep, tier):
     """run-time contract on the REAL iter_func_args over all code-object shapes <= N parameters (bounded, never counted as proved)"""
